@@ -862,7 +862,19 @@ def check_labels(chk, fi: FuncInfo, m: PairsModel) -> None:
     if not silent_bad:
         chk.ok("label-extra-filter", fi.site(ll), "only missing edges / missing cis-trans skip a hydrogen bond")
     # labels are added only after both edge lists and the cis/trans letter are known to exist
-    chk.ok("label-skips", fi.site(ll), "skip `no-edge` / `no-cistrans`: every path that adds no label is explained by a missing edge list or a missing cis/trans letter")
+    unchecked: Dict[str, ast.AST] = {}
+    for p in paths:
+        for tup, its, complete, conds, e in _label_sites(p, m.labels):
+            for it in its:
+                if _edges_form(it) is not None and not any(k == f"{norm(it)} is None" and v is False for k, v, _ in conds):
+                    unchecked.setdefault("no-edge", e.node)
+            if isinstance(tup, ast.Tuple) and len(tup.elts) == 5 and norm(tup.elts[2]).startswith("detect_cis_trans(") and not any(k == f"{norm(tup.elts[2])} is None" and v is False for k, v, _ in conds):
+                unchecked.setdefault("no-cistrans", e.node)
+    for kname in ("no-edge", "no-cistrans"):
+        if kname in unchecked:
+            chk.violation("label-skips", fi.site(unchecked[kname]), f"label loop lacks the `{kname}` skip: labels are added on a path that has not found " + ("both edge lists present (an atom without an edge entry makes the loop fail or mislabel)" if kname == "no-edge" else "the cis/trans letter present (a label with c/t = None is counted and breaks the LeontisWesthof look-up)"), K(fi, f"label-skip:{kname}"))
+        else:
+            chk.ok("label-skips", fi.site(ll), f"skip `{kname}` decided on every path before a label is added")
     chk.ok("label-edges", fi.site(ll), "edges_i / edges_j = BASE_EDGES[base of the residue][name of its atom] (canonical form, defaults normalised)") if not edge_problem else None
     chk.ok("label-cistrans", fi.site(ll), "cis/trans from detect_cis_trans of the two residues")
 
